@@ -232,7 +232,32 @@ func (s *scen) commit(b *rBlock) string {
 		return out
 	}
 	s.observe("commit", out, rep, full)
+	if s.moveFailed {
+		s.farthestCheck()
+	}
 	return out
+}
+
+// farthestCheck ties BlockTreeNode.FindFarthestNode itself to the model's `farthest` (the walk over ALL nodes, header-only
+// leaves included, first child winning ties): since fix c3d926ba the fall-back uses findFarthestWithData (tied through
+// every failed reorganisation), but FindFarthestNode still chooses the branch that Chain opens on when it is loaded
+// (chain.go: ParseTillBlock(FindFarthestNode())) and the client's best header.
+func (s *scen) farthestCheck() {
+	if s.dead || s.noModel {
+		return
+	}
+	var got string
+	func() {
+		defer func() { recover() }()
+		n, _ := s.k.Ch.BlockTreeRoot.FindFarthestNode()
+		got = hex.EncodeToString(n.BlockHash.Hash[:])
+	}()
+	want := o.MustAsk("farthest")
+	if got != want {
+		s.tieFail("tie-farthest", fmt.Sprintf("FindFarthestNode returns %s, the model's walk (first child wins ties, every leaf counts) %s", firstN(got, 16), firstN(want, 16)))
+		return
+	}
+	r.Hit("farthest-node-checked")
 }
 
 // headerOnlyAbove counts the header-only nodes that hang (directly or not) below the real tip.
